@@ -199,7 +199,12 @@ impl TimeTrigger {
         let next_time = TimeTrigger::get_next_time(current, config.interval, config.modulate);
         let next_roll_time = if config.max_random_delay > 0 {
             let random_delay = rand::thread_rng().gen_range(0..config.max_random_delay);
-            next_time + Duration::seconds(random_delay as i64)
+            // chrono panics on durations beyond +-i64::MAX milliseconds and on dates
+            // outside its range: cap an absurd delay instead of panicking
+            let random_delay = random_delay.min((i64::MAX / 1000) as u64) as i64;
+            next_time
+                .checked_add_signed(Duration::seconds(random_delay))
+                .unwrap_or(next_time)
         } else {
             next_time
         };
